@@ -12,6 +12,15 @@ def compatTy : OTy → OTy → Bool
   | .coll, _ | _, .coll => false
   | a, b => a == b || (isNumeric a && isNumeric b)
 
+/-- the `null` literal is an expression of every primitive type (Part 2 §5.1.1.14.1: it may stand wherever a primitive value is expected) -/
+def argFits (param arg : OTy) : Bool := param == arg || (arg == .prim .null && param != .coll)
+
+/-- result type of a built-in when `null` arguments are matched against the primitive parameters of its signatures (first matching row) -/
+def sigResultN (fn : String) (args : List OTy) : Option OTy :=
+  match sigTable.find? (fun r => r.1 == fn && r.2.1.length == args.length && (r.2.1.zip args).all (fun p => argFits p.1 p.2)) with
+  | some r => some r.2.2
+  | none => none
+
 mutual
 def sType (Γ : Expr → Option OTy) : Expr → Option OTy
   | .ident i => Γ (.ident i)
@@ -49,7 +58,7 @@ def sType (Γ : Expr → Option OTy) : Expr → Option OTy
       | _, _ => none
   | .call f args =>
       match sTypes Γ args with
-      | some tys => sigResult (String.ofList f.fullName) tys
+      | some tys => sigResultN (String.ofList f.fullName) tys
       | none => none
   | .named _ _ => none
   | .coll _ _ _ => none
